@@ -595,3 +595,212 @@ for _nd, _nb in ((2, 1), (2, 2), (3, 2)):
         group(["C06"], "model.Model/blend_and_nll/n=%d,b=%d,%s" % (_nd, _nb, "bgweights" if _bw else "w_bkg"),
               ["model.model:Model.get_weight_data", "model.model:Model.nll", "model.model:BaseModel.nll", "data:data_merge"], no_native=True,
               bound="tensor lengths n_data=%d, n_bg=%d, n_mc=2" % (_nd, _nb))(_mk_model_blend(_nd, _nb, _bw))
+
+
+# ------------------------------------------------------------------ FCN: the value belongs to the point that was PASSED, not to the previous one
+@group(["C06", "C07", "C08"], "model.FCN/point_passed_is_point_evaluated",
+       ["model.model:FCN.__call__", "model.model:FCN.get_nll", "model.model:FCN.nll_grad", "model.model:FCN.get_nll_grad", "model.model:FCN.nll_grad_hessian",
+        "model.model:FCN.get_nll_grad_hessian", "model.model:FCN.grad_hessp", "model.model:FCN.get_grad_hessp", "model.model:FCN.grad"], no_native=True,
+       assumes=["the likelihood model is summarised by: set_params(x) stores x in the parameter manager; nll / nll_grad_batch / nll_grad_hessian / grad_hessp_batch return "
+                "NLL(theta) and its exact partials AT THE STORED parameters (their own contracts: model.BaseModel/derivatives, model.cfit..., model.autodiff_helpers)",
+                "float() on the reported value is the identity (module-level name float is shadowed in the shadow process)"])
+def fcn_point_passed(ctx):
+    """the REAL FCN methods (get_nll, get_nll_grad, ... are NOT replaced here) on a stateful model summary: the parameter manager holds an OLD
+    point; every entry point is called with a NEW point; value / gradient / Hessian / Hessian-vector product, INCLUDING the Gaussian-constraint
+    terms, must be those of the new point, and the manager must hold the new point afterwards"""
+    model = ctx.mod("model.model")
+    model.float = lambda x: x
+    model.np = ctx.shim.NpProxy()
+    model.data_split = lambda w, batch: [w]
+    names = ["a", "b"]
+    state = {n: _el(ctx.real("old_" + n, ())) for n in names}
+    vm = _Dummy(trainable_vars=list(names), variables=state)
+    declare_uf("NLL", 2)
+    mu, sgt = _el(ctx.real("mu_a", ())), ctx.real("sg_a", (), lambda r: r.uniform(0.1, 2))
+    ctx.require(sgt > 0.0)
+    sg = _el(sgt)
+
+    def cur():
+        return [state[n] for n in names]
+
+    def vgh():
+        th = cur()
+        N = uf("NLL", th)
+        g = np.empty((2,), dtype=object)
+        h = np.empty((2, 2), dtype=object)
+        for i in range(2):
+            g[i] = uf("NLL", th, (i,))
+            for j in range(2):
+                h[i, j] = uf("NLL", th, (i, j))
+        return N, g, h
+
+    class ModelSummary:
+        def __init__(self):
+            self.vm = vm
+
+        def set_params(self, x):
+            if isinstance(x, dict):
+                for k, v in x.items():
+                    state[k] = _el(v)
+            else:
+                for n, v in zip(names, list(x)):
+                    state[n] = _el(v)
+
+        def nll(self, data, mcdata, weight=None, mc_weight=None, **kw):
+            return _S(ctx, vgh()[0])
+
+        def nll_grad_batch(self, data, mcdata, weight=None, mc_weight=None, **kw):
+            N, g, h = vgh()
+            return _S(ctx, N), g
+
+        def nll_grad_hessian(self, data, mcdata, weight=None, batch=None, mc_weight=None, **kw):
+            N, g, h = vgh()
+            return _S(ctx, N), g, h
+
+        def grad_hessp_batch(self, p, data, mcdata, weight=None, mc_weight=None, **kw):
+            N, g, h = vgh()
+            pv = [_el(q) for q in p]
+            out = np.empty((2,), dtype=object)
+            for i in range(2):
+                out[i] = tm.add(tm.mul(h[i, 0], pv[0]), tm.mul(h[i, 1], pv[1]))
+            return g, out
+
+    fcn = model.FCN.__new__(model.FCN)
+    fcn.model = ModelSummary()
+    fcn.vm = vm
+    fcn.batch = 65000
+    fcn.n_call = fcn.n_grad = 0
+    fcn.cached_nll = None
+    fcn.data = fcn.mcdata = fcn.weight = fcn.mc_weight = fcn.batch_data = fcn.batch_mcdata = fcn.batch_mc_weight = None
+    fcn.gauss_constr = model.GaussianConstr(vm, {"a": (mu, sg)})
+
+    def new_point(tag, as_dict):
+        pt = {n: ctx.real("%s_%s" % (tag, n), ()) for n in names}
+        arg = dict(pt) if as_dict else [pt[n] for n in names]
+        th = [_el(pt[n]) for n in names]
+        value = tm.add(uf("NLL", th), tm.div(tm.mul(tm.add(th[0], tm.neg(mu)), tm.add(th[0], tm.neg(mu))), tm.mul(tm.const(2), tm.mul(sg, sg))))
+        return arg, th, value
+
+    def stored(tag, th):
+        ok = all(state[n] is t for n, t in zip(names, th))
+        ctx.holds(tag + "/manager_holds_new_point", ctx.tf.constant(ok), clause="after the call the parameter manager holds the point that was passed")
+
+    arg, th, value = new_point("p1", True)
+    ctx.eq("call/value", _S(ctx, _el(fcn(arg))), _S(ctx, value), clause="fcn(x) == NLL(x) + sum (x_i - mu_i)^2 / (2 sigma_i^2), every term at the point x that was passed")
+    stored("call", th)
+    arg, th, value = new_point("p2", False)
+    v, g = fcn.nll_grad(arg)
+    ctx.eq("nll_grad/value", _S(ctx, _el(v)), _S(ctx, value), clause="nll_grad(x)[0] == NLL(x) + constraint(x) at the passed point")
+    for k in range(2):
+        ctx.eq("nll_grad/grad[%d]" % k, _S(ctx, _el(g[k])), _S(ctx, _d(value, th, k)), clause="nll_grad(x)[1][k] == d/dx_k of that value at the passed point")
+    stored("nll_grad", th)
+    arg, th, value = new_point("p3", True)
+    v, g, h = fcn.nll_grad_hessian(arg)
+    ctx.eq("nll_grad_hessian/value", _S(ctx, _el(v)), _S(ctx, value), clause="nll_grad_hessian(x)[0] at the passed point")
+    for k in range(2):
+        ctx.eq("nll_grad_hessian/grad[%d]" % k, _S(ctx, _el(g[k])), _S(ctx, _d(value, th, k)), clause="gradient at the passed point")
+        for l in range(2):
+            ctx.eq("nll_grad_hessian/hess[%d][%d]" % (k, l), _S(ctx, _el(h[k][l])), _S(ctx, _d(_d(value, th, k), th, l)), clause="Hessian at the passed point")
+    stored("nll_grad_hessian", th)
+    arg, th, value = new_point("p4", False)
+    parr = np.empty((2,), dtype=object)
+    parr[:] = [_el(ctx.real("q%d" % i, ())) for i in range(2)]
+    g, hp = fcn.grad_hessp(arg, parr)
+    for k in range(2):
+        ctx.eq("grad_hessp/grad[%d]" % k, _S(ctx, _el(g[k])), _S(ctx, _d(value, th, k)), clause="grad_hessp(x, p)[0][k] at the passed point")
+        want = tm.add(tm.mul(_d(_d(value, th, k), th, 0), parr[0]), tm.mul(_d(_d(value, th, k), th, 1), parr[1]))
+        ctx.eq("grad_hessp/hessp[%d]" % k, _S(ctx, _el(hp[k])), _S(ctx, want), clause="grad_hessp(x, p)[1][k] == sum_l H_kl(x) p_l at the passed point")
+    stored("grad_hessp", th)
+    arg, th, value = new_point("p5", True)
+    g = fcn.grad(arg)
+    for k in range(2):
+        ctx.eq("grad/grad[%d]" % k, _S(ctx, _el(g[k])), _S(ctx, _d(value, th, k)), clause="grad(x)[k] at the passed point, constraint included")
+
+
+@group(["C06", "C07", "C08"], "model.CombineFCN/point_passed_is_point_evaluated",
+       ["model.model:CombineFCN.__call__", "model.model:CombineFCN.get_nll", "model.model:CombineFCN.nll_grad", "model.model:CombineFCN.get_nll_grad",
+        "model.model:CombineFCN.nll_grad_hessian", "model.model:CombineFCN.get_nll_grad_hessian", "model.model:CombineFCN.grad"], no_native=True,
+       assumes=["each member FCN is summarised by: get_nll(x) / get_nll_grad(x) / get_nll_grad_hessian(x) store x in the shared parameter manager and return NLL_i and its "
+                "exact partials at the stored point (member contract: model.FCN/point_passed_is_point_evaluated)"])
+def combine_point_passed(ctx):
+    model = ctx.mod("model.model")
+    model.float = lambda x: x
+    model.np = ctx.shim.NpProxy()
+    names = ["a", "b"]
+    state = {n: _el(ctx.real("old_" + n, ())) for n in names}
+    vm = _Dummy(trainable_vars=list(names), variables=state)
+    mu, sgt = _el(ctx.real("mu_b", ())), ctx.real("sg_b", (), lambda r: r.uniform(0.1, 2))
+    ctx.require(sgt > 0.0)
+    sg = _el(sgt)
+
+    def store(x):
+        if isinstance(x, dict):
+            for k, v in x.items():
+                state[k] = _el(v)
+        else:
+            for n, v in zip(names, list(x)):
+                state[n] = _el(v)
+
+    def member(tag):
+        declare_uf(tag, 2)
+
+        def vgh():
+            th = [state[n] for n in names]
+            g = np.empty((2,), dtype=object)
+            h = np.empty((2, 2), dtype=object)
+            for i in range(2):
+                g[i] = uf(tag, th, (i,))
+                for j in range(2):
+                    h[i, j] = uf(tag, th, (i, j))
+            return uf(tag, th), g, h
+
+        def get_nll(x={}):
+            store(x)
+            return _S(ctx, vgh()[0])
+
+        def get_nll_grad(x={}):
+            store(x)
+            N, g, h = vgh()
+            return _S(ctx, N), g
+
+        def get_nll_grad_hessian(x={}, batch=None):
+            store(x)
+            N, g, h = vgh()
+            return _S(ctx, N), g, h
+
+        def get_grad(x={}):
+            store(x)
+            return vgh()[1]
+
+        return _Dummy(vm=vm, get_nll=get_nll, get_nll_grad=get_nll_grad, get_nll_grad_hessian=get_nll_grad_hessian, get_grad=get_grad)
+
+    tags = ("M1", "M2")
+    cf = model.CombineFCN(fcns=[member(t) for t in tags], gauss_constr={"b": (mu, sg)})
+
+    def new_point(tag, as_dict):
+        pt = {n: ctx.real("%s_%s" % (tag, n), ()) for n in names}
+        arg = dict(pt) if as_dict else [pt[n] for n in names]
+        th = [_el(pt[n]) for n in names]
+        value = tm.div(tm.mul(tm.add(th[1], tm.neg(mu)), tm.add(th[1], tm.neg(mu))), tm.mul(tm.const(2), tm.mul(sg, sg)))
+        for t in tags:
+            value = tm.add(value, uf(t, th))
+        return arg, th, value
+
+    arg, th, value = new_point("p1", True)
+    ctx.eq("call/value", _S(ctx, _el(cf(arg))), _S(ctx, value), clause="CombineFCN(x) == sum_i NLL_i(x) + constraint(x), every term at the point that was passed")
+    arg, th, value = new_point("p2", False)
+    v, g = cf.nll_grad(arg)
+    ctx.eq("nll_grad/value", _S(ctx, _el(v)), _S(ctx, value), clause="nll_grad(x)[0] at the passed point")
+    for k in range(2):
+        ctx.eq("nll_grad/grad[%d]" % k, _S(ctx, _el(g[k])), _S(ctx, _d(value, th, k)), clause="nll_grad(x)[1][k] at the passed point")
+    arg, th, value = new_point("p3", True)
+    v, g, h = cf.nll_grad_hessian(arg)
+    ctx.eq("nll_grad_hessian/value", _S(ctx, _el(v)), _S(ctx, value), clause="nll_grad_hessian(x)[0] at the passed point")
+    for k in range(2):
+        ctx.eq("nll_grad_hessian/grad[%d]" % k, _S(ctx, _el(g[k])), _S(ctx, _d(value, th, k)), clause="gradient at the passed point")
+        for l in range(2):
+            ctx.eq("nll_grad_hessian/hess[%d][%d]" % (k, l), _S(ctx, _el(h[k][l])), _S(ctx, _d(_d(value, th, k), th, l)), clause="Hessian at the passed point")
+    arg, th, value = new_point("p4", False)
+    g = cf.grad(arg)
+    for k in range(2):
+        ctx.eq("grad/grad[%d]" % k, _S(ctx, _el(g[k])), _S(ctx, _d(value, th, k)), clause="grad(x)[k] at the passed point, constraint included")
